@@ -99,7 +99,12 @@ pub fn accepted_pairs(c: Cont) -> Vec<(TileFormat, TileCompression)> {
 /// lingering threads bounded, at most POOL_LIMIT pools are created per 31 s window.
 const POOL_LIMIT: usize = 4000;
 static POOL_TIMES: std::sync::Mutex<std::collections::VecDeque<std::time::Instant>> = std::sync::Mutex::new(std::collections::VecDeque::new());
+pub static POOL_TOKENS: std::sync::atomic::AtomicU64 = std::sync::atomic::AtomicU64::new(0);
+pub static POOL_WAIT_MS: std::sync::atomic::AtomicU64 = std::sync::atomic::AtomicU64::new(0);
 pub fn mbtiles_pool_token() {
+	POOL_TOKENS.fetch_add(1, std::sync::atomic::Ordering::Relaxed);
+	let t0 = std::time::Instant::now();
+	let _g = PoolWait(t0);
 	loop {
 		let wait = {
 			let mut q = POOL_TIMES.lock().unwrap();
@@ -114,6 +119,13 @@ pub fn mbtiles_pool_token() {
 			std::time::Duration::from_secs(31).saturating_sub(now.duration_since(*q.front().unwrap()))
 		};
 		std::thread::sleep(wait.min(std::time::Duration::from_millis(500)));
+	}
+}
+
+struct PoolWait(std::time::Instant);
+impl Drop for PoolWait {
+	fn drop(&mut self) {
+		POOL_WAIT_MS.fetch_add(self.0.elapsed().as_millis() as u64, std::sync::atomic::Ordering::Relaxed);
 	}
 }
 
